@@ -953,7 +953,7 @@ func (fx *FnExec) prepareCFG() []*ssa.BasicBlock {
 		heads = append(heads, li)
 	}
 	sort.Slice(heads, func(i, j int) bool {
-		pi, pj := fx.blockPos(heads[i].head), fx.blockPos(heads[j].head)
+		pi, pj := fx.loopPos(heads[i]), fx.loopPos(heads[j])
 		if pi != pj {
 			return pi < pj
 		}
@@ -986,6 +986,25 @@ func (fx *FnExec) prepareCFG() []*ssa.BasicBlock {
 		order[i], order[j] = order[j], order[i]
 	}
 	return order
+}
+
+// loopPos: source position of a loop: the smallest position in its head block, or, when the head
+// carries no position at all (range loops: only phis and the length comparison), the smallest
+// position in its body.
+func (fx *FnExec) loopPos(li *loopInfo) token.Pos {
+	if p := fx.blockPos(li.head); p.IsValid() {
+		return p
+	}
+	best := token.NoPos
+	for _, b := range fx.Fn.Blocks {
+		if !li.body[b.Index] {
+			continue
+		}
+		if p := fx.blockPos(b); p.IsValid() && (best == token.NoPos || p < best) {
+			best = p
+		}
+	}
+	return best
 }
 
 func (fx *FnExec) blockPos(b *ssa.BasicBlock) token.Pos {
